@@ -162,3 +162,4 @@ PROP = Prop(
                  'Gauss-Legendre based cells accept every order; they are probed up to the stated maximum only'],
     subs=[Sub('rules', body, cases=cases, max_shards=16), Sub('repeat_calls', body_repeat, cases=cases_repeat, max_shards=8)],
     design_ref='DESIGN.md section 6, C08')
+PROP.rule += ('. Added in round 2 (sub-check repeat_calls): every (cell, order) and its neighbours (all cells, orders n-1, n, n+1) are requested, the caller rescales the arrays of one result in place, and everything is requested again: bit-identical results required.')
